@@ -131,6 +131,7 @@ type X struct {
 	neqMemo  map[[2]int]bool
 	contained map[*Term][]*Term
 	postEnv  *Env
+	noWrap   bool
 }
 
 // callEvent records the symbolic result of a call to a function that was
@@ -196,6 +197,29 @@ func (x *X) oblige(kind, detail, pos string, guard, cond *Term) *Obligation {
 	o := &Obligation{Name: name, Kind: kind, Func: x.root, Pos: pos, Guard: guard, Cond: cond, NAssum: len(x.assums)}
 	x.obligs = append(x.obligs, o)
 	return o
+}
+
+// splitConjuncts replaces functional obligations whose condition is a
+// conjunction by one obligation per conjunct (named <name>/<k>): each query is
+// smaller and a failure names the conjunct.
+func (x *X) splitConjuncts() {
+	var out []*Obligation
+	for _, o := range x.obligs {
+		switch o.Kind {
+		case "requires", "ensures", "assert", "inv-entry", "inv-preserved":
+			if o.Cond.Op == "and" && len(o.Cond.Args) > 1 {
+				for i, c := range o.Cond.Args {
+					o2 := *o
+					o2.Cond = c
+					o2.Name = fmt.Sprintf("%s/%d", o.Name, i+1)
+					out = append(out, &o2)
+				}
+				continue
+			}
+		}
+		out = append(out, o)
+	}
+	x.obligs = out
 }
 
 var curFuncStack []string
